@@ -9,7 +9,8 @@ THEOREMS = ['Bluebell.C01_counterexample_attachment_prefix', 'Bluebell.C01_count
             'Bluebell.peg_terminates', 'Bluebell.eval_mono', 'Bluebell.eval_span',
             'Bluebell.C01_flat_plain_text_accepted', 'Bluebell.C01_plain_starts', 'Bluebell.flat_doc_accepted',
             'Bluebell.C01_nested_plain_text_accepted', 'Bluebell.nested_doc_accepted',
-            'Bluebell.C01_plain_text_any_indentation', 'Bluebell.good_blocks_accepted', 'Bluebell.parse_blocks']
+            'Bluebell.C01_plain_text_any_indentation', 'Bluebell.good_blocks_accepted', 'Bluebell.parse_blocks',
+            'Bluebell.nested_judgment_accepted', 'Bluebell.good_blocks_accepted_six']
 
 
 def run(ctx, info):
